@@ -191,6 +191,7 @@ class Exec:
         self.assuming = 0
         self.path_end_hooks = []
         self.forced = {}
+        self.dump_smt2 = False
 
     # ---- fresh symbols ----------------------------------------------------------------------------
     def _name(self, base):
@@ -373,7 +374,8 @@ class Exec:
         dt = time.time() - t0
         self.solver_time += dt
         if r == z3.unsat:
-            self.vcs.append(VC(full, 'discharged', 'z3', dt, path=list(self.trace), detail=detail))
+            self.vcs.append(VC(full, 'discharged', 'z3', dt, path=list(self.trace), detail=detail,
+                               smt2=self.solver.to_smt2() if self.dump_smt2 else None))
         elif r == z3.sat:
             self.vcs.append(VC(full, 'refuted', 'z3', dt, model=self.solver.model(), path=list(self.trace),
                                detail=detail))
